@@ -39,7 +39,7 @@ package util
 //@   ensures result == len(set.elems)
 
 //@ func ByteLowercase
-//@   props C02 C04 C05 C15 C17
+//@   props C04 C05 C15 C17
 //@   pure
 //@   allocs <= 1
 
